@@ -132,13 +132,30 @@ func getSurnames(document *gedcom.Document, options *PublishShowOptions) *gedcom
 		return options.surnames
 	}
 
-	return collectSurnames(document)
+	visibility := LivingVisibility(LivingVisibilityShow)
+	if options != nil {
+		visibility = options.LivingVisibility
+	}
+
+	return collectSurnames(document, visibility)
 }
 
-func collectSurnames(document *gedcom.Document) *gedcom.StringSet {
+func collectSurnames(document *gedcom.Document, visibility LivingVisibility) *gedcom.StringSet {
 	surnames := gedcom.NewStringSet()
 
 	for _, individual := range document.Individuals() {
+		// The surname of a living individual must not be published unless
+		// living individuals are shown.
+		if individual.IsLiving() {
+			switch visibility {
+			case LivingVisibilityHide, LivingVisibilityPlaceholder:
+				continue
+
+			case LivingVisibilityShow:
+				// Proceed.
+			}
+		}
+
 		surname := individual.Name().Surname()
 		if surname != "" {
 			surnames.Add(surname)
